@@ -5,6 +5,8 @@ Three streams:
                                        line by line with Model/TraitListObject (Lean driver `seq`)
   #{json}                              nested List(List(T)), Dict(K, List(T)), Set(T), Dict(K, V) traits: oracle only
                                        (the Lean theorems about them are stated over abstract validators)
+  og:<kind>|<items>|<inner>|<states>   object-level gates of real List/Dict/Set trait values (props/objgate.py),
+                                       compared with Model/ContainerObject (Lean driver `ObjGate`)
 """
 import copy
 import json
@@ -12,9 +14,10 @@ import json
 from . import seqlib as S
 
 PROPERTY = "C04"
-DRIVERS = {"tlo:": "TraitsVerif/Driver/Seq.lean", "nl:": "TraitsVerif/Driver/Nested.lean"}
+DRIVERS = {"tlo:": "TraitsVerif/Driver/Seq.lean", "nl:": "TraitsVerif/Driver/Nested.lean",
+           "og:": "TraitsVerif/Driver/ObjGate.lean"}
 PROPS_MODULES = ["TraitsVerif.Props.C04"]
-TRANSLATORS = ["mutators", "lenguard", "pyl"]
+TRANSLATORS = ["mutators", "lenguard", "pyl", "pylobj", "ctorcopy"]
 RULE = ("List(T, minlen, maxlen) traits on real HasTraits objects: exhaustive single mutator calls on lists of "
         "length 0..3 for (minlen, maxlen) in a grid, plus seeded random histories (all mutators, whole-value "
         "assignment, valid / coercible / invalid items) compared with the Lean model; a second stream of "
@@ -147,6 +150,10 @@ def generate(rng, tier):
     for _ in range(nn // 3):
         yield "#" + json.dumps({"wi": random_weird_index_case(rng)}, separators=(",", ":"))
     yield from default_cases()
+    # the object-level gates (validators, length check, items-event delivery) of real trait values in every
+    # situation Model/ContainerObject.lean distinguishes: exhaustive, compared with the model (Driver/ObjGate)
+    from . import objgate
+    yield from objgate.cases()
 
 
 # ----------------------------------------------------------------------------
@@ -481,6 +488,9 @@ def run_impl(case):
         return run_nested(c)
     if case.startswith("nl:"):
         return run_nl(case)
+    if case.startswith("og:"):
+        from . import objgate
+        return objgate.run(case)
     from traits.api import TraitError
     from traits.trait_list_object import TraitListObject
     kind, vspec, init, ops = case.split("|")
